@@ -145,12 +145,13 @@ class Copier(object):
                 src_fs, src_path, dst_fs, dst_path, preserve_time=self.preserve_time
             )
         else:
-            self.all_tasks.append((src_fs, src_path, dst_fs, dst_path))
             src_file = src_fs.openbin(src_path, "r")
             try:
                 dst_file = dst_fs.openbin(dst_path, "w")
             except Exception:
                 src_file.close()
                 raise
+            # only a transfer that was started has a modification time to preserve
+            self.all_tasks.append((src_fs, src_path, dst_fs, dst_path))
             task = _CopyTask(src_file, dst_file)
             self.queue.put(task)
